@@ -1427,7 +1427,7 @@ class World:
         if name == "fromtimestamp":
             def f(it, a, k, n):
                 if a and isinstance(a[0], (int, float)) and a[0] == 0:
-                    return new_datetime(self, 1970, 1, 1, it.fresh_int("tzhour"), 0, 0, 0)
+                    return new_datetime(self, 1970, 1, 1, _bounded(it, "tzhour", 0, 23), 0, 0, 0)      # (local time of the epoch: a valid datetime)
                 d = new_datetime(self, *[it.fresh_int(x) for x in ("y", "mo", "d", "h", "mi", "s", "us")])
                 assume_dt_valid(it, d)
                 if not (a and _native(a[0])):
